@@ -14,9 +14,9 @@
        (the nesting checker runs to completion first: a tree with both defects gets (a))
    (c) "on supported constructs no other exception escapes, and every query that is not refused is
        translated"                                                     -> C07_translated
-   The unchanged code violates all three: F8 (a nested / object container none of whose children
-   is a leaf is not recognised) breaks (a) and (b); F7 (a range bound under `-` makes visit_range
-   read `.value` of a Prohibit: AttributeError) breaks (b) and (c). *)
+   The code violates (a) and (b): F8 (a nested / object container none of whose children is a leaf is
+   not recognised).  (c) holds in full since the repair of F7 (commit 8352212: a range bound under `-`
+   made visit_range read `.value` of a Prohibit: AttributeError); regression examples are kept. *)
 Require Import Base Decimal Tree GenTree GenVisitors Visitor Json EsSpecs EsCheck EsBuild EsSpec
                TreeInd EsProofs.
 
@@ -39,40 +39,34 @@ Definition C07_translated_statement : Prop :=
   forall cfg t, supported t = true -> wf_config cfg = true ->
     ~ container_misuse cfg t -> ~ mix cfg t -> exists j, build cfg t = ROk j.
 
-(* ---- partial statements: the guards remove exactly the two findings
+(* ---- partial statements: the guard removes exactly the finding F8
    containers_have_leaf cfg : every ancestor of a declared nested / object path is the parent of a
-                              declared path (not F8)
-   range_bounds_plain t     : every range has a word or a phrase on both sides (not F7) *)
+                              declared path *)
 Definition C07_container_partial_statement : Prop :=
   forall cfg t, supported t = true -> wf_config cfg = true ->
-    containers_have_leaf cfg = true -> range_bounds_plain t = true ->
+    containers_have_leaf cfg = true ->
     (is_nested_exc (build cfg t) <-> container_misuse cfg t).
 
 Definition C07_mix_partial_statement : Prop :=
   forall cfg t, supported t = true -> wf_config cfg = true ->
-    containers_have_leaf cfg = true -> range_bounds_plain t = true ->
+    containers_have_leaf cfg = true ->
     (is_mix_exc (build cfg t) <-> ~ container_misuse cfg t /\ mix cfg t).
 
-Definition C07_translated_partial_statement : Prop :=
-  forall cfg t, supported t = true -> wf_config cfg = true ->
-    range_bounds_plain t = true ->
-    ~ container_misuse cfg t -> ~ mix cfg t -> exists j, build cfg t = ROk j.
-
 (* whatever the configuration declares, a refusal by the nesting checker is a real misuse (this
-   direction needs no guard on the configuration) *)
+   direction needs no guard) *)
 Definition C07_container_sound_statement : Prop :=
-  forall cfg t, supported t = true -> wf_config cfg = true -> range_bounds_plain t = true ->
+  forall cfg t, supported t = true -> wf_config cfg = true ->
     is_nested_exc (build cfg t) -> container_misuse cfg t.
 
 (* ---- proofs *)
 Lemma build_cases cfg t :
-  supported t = true -> wf_config cfg = true -> range_bounds_plain t = true ->
+  supported t = true -> wf_config cfg = true ->
   (exists e, (e = XNested \/ e = XObject) /\ build cfg t = RExc e /\
              misuse_with cfg (parent_containers cfg) t) \/
   (~ misuse_with cfg (parent_containers cfg) t /\
    ((mix cfg t /\ build cfg t = RExc XMix) \/ (~ mix cfg t /\ exists j, build cfg t = ROk j))).
 Proof.
-  intros Hs Hwf Hr. pose proof (build_spec cfg t Hs Hr Hwf) as Hb.
+  intros Hs Hwf. pose proof (build_spec cfg t Hs Hwf) as Hb.
   destruct (check_nested_spec cfg t) as [Hnone Hsome].
   destruct (check_nested (ev_chk (mk_env cfg)) t) as [e|].
   - left. destruct (Hsome e eq_refl) as [Hk Hm]. exists e. auto.
@@ -84,8 +78,8 @@ Qed.
 
 Theorem C07_container_sound : C07_container_sound_statement.
 Proof.
-  intros cfg t Hs Hwf Hr Hn.
-  destruct (build_cases cfg t Hs Hwf Hr) as [[e [He [Hb Hm]]]|[_ [[_ Hb]|[_ [j Hb]]]]].
+  intros cfg t Hs Hwf Hn.
+  destruct (build_cases cfg t Hs Hwf) as [[e [He [Hb Hm]]]|[_ [[_ Hb]|[_ [j Hb]]]]].
   - apply misuse_mono. exact Hm.
   - destruct Hn as [Hn|Hn]; rewrite Hb in Hn; discriminate.
   - destruct Hn as [Hn|Hn]; rewrite Hb in Hn; discriminate.
@@ -93,16 +87,16 @@ Qed.
 
 Theorem C07_container_partial : C07_container_partial_statement.
 Proof.
-  intros cfg t Hs Hwf Hc Hr. split; [apply C07_container_sound; assumption|].
+  intros cfg t Hs Hwf Hc. split; [apply C07_container_sound; assumption|].
   intros Hm. apply (misuse_closed cfg t Hc) in Hm.
-  destruct (build_cases cfg t Hs Hwf Hr) as [[e [He [Hb _]]]|[Hno _]]; [|contradiction].
+  destruct (build_cases cfg t Hs Hwf) as [[e [He [Hb _]]]|[Hno _]]; [|contradiction].
   unfold is_nested_exc. rewrite Hb. destruct He; subst; auto.
 Qed.
 
 Theorem C07_mix_partial : C07_mix_partial_statement.
 Proof.
-  intros cfg t Hs Hwf Hc Hr. unfold is_mix_exc.
-  destruct (build_cases cfg t Hs Hwf Hr) as [[e [He [Hb Hm]]]|[Hno [[Hmix Hb]|[Hmix [j Hb]]]]];
+  intros cfg t Hs Hwf Hc. unfold is_mix_exc.
+  destruct (build_cases cfg t Hs Hwf) as [[e [He [Hb Hm]]]|[Hno [[Hmix Hb]|[Hmix [j Hb]]]]];
     rewrite Hb.
   - split.
     + intros H. destruct He; subst; discriminate.
@@ -112,10 +106,11 @@ Proof.
   - split; [discriminate|]. intros [_ H]. contradiction.
 Qed.
 
-Theorem C07_translated_partial : C07_translated_partial_statement.
+(* clause (c) holds in full *)
+Theorem C07_translated : C07_translated_statement.
 Proof.
-  intros cfg t Hs Hwf Hr Hnm Hnx.
-  destruct (build_cases cfg t Hs Hwf Hr) as [[e [He [Hb Hm]]]|[Hno [[Hmix Hb]|[Hmix Hb]]]].
+  intros cfg t Hs Hwf Hnm Hnx.
+  destruct (build_cases cfg t Hs Hwf) as [[e [He [Hb Hm]]]|[Hno [[Hmix Hb]|[Hmix Hb]]]].
   - exfalso. apply Hnm. apply misuse_mono. exact Hm.
   - contradiction.
   - exact Hb.
@@ -145,42 +140,37 @@ Proof.
   destruct (H2 F8_misuse) as [Hn|Hn]; rewrite F8_translated in Hn; discriminate.
 Qed.
 
-(* F7: query  [-1 TO 5] AND (b OR c)  written without the parentheses: the range comes first *)
-Definition t_F7 : item :=
-  Range meta0 (Unary KProhibit meta0 (w [49]%N)) (w [53]%N) true true.
-Definition t_F7_mix : item :=
-  Op KAnd meta0 [t_F7; Op KOr meta0 [w [98]%N; w [99]%N]].
-
-Lemma default_no_misuse t :
-  check_nested (ev_chk (mk_env default_config)) t = None -> ~ container_misuse default_config t.
-Proof.
-  intros Hc Hm. apply (misuse_closed default_config t eq_refl) in Hm.
-  apply (proj1 (check_nested_spec default_config t)) in Hc. contradiction.
-Qed.
+(* F8 again:  a:(x AND y OR z)  is refused for the mix although a term sits on the container a *)
+Definition t_F8_mix : item :=
+  SearchField meta0 [97]%N
+    (Grp KFieldGroup meta0 (Op KAnd meta0 [w [120]%N; Op KOr meta0 [w [121]%N; w [122]%N]])).
 
 Theorem C07_mix_refuted : ~ C07_mix_statement.
 Proof.
-  intros H. destruct (H default_config t_F7_mix eq_refl eq_refl) as [_ H2].
-  assert (Hmix : mix default_config t_F7_mix) by (apply mixb_mix; vm_compute; reflexivity).
-  assert (Hno : ~ container_misuse default_config t_F7_mix)
-    by (apply default_no_misuse; vm_compute; reflexivity).
-  specialize (H2 (conj Hno Hmix)). vm_compute in H2. discriminate.
+  intros H. destruct (H cfg_F8 t_F8_mix eq_refl eq_refl) as [H1 _].
+  assert (Hb : build cfg_F8 t_F8_mix = RExc XMix) by (vm_compute; reflexivity).
+  destruct (H1 Hb) as [Hno _]. apply Hno.
+  exists [0; 0; 0], KWord, meta0, [120]%N. split; vm_compute; reflexivity.
 Qed.
 
-(* F7: query  a:[-1 TO 5]  *)
-Theorem C07_translated_refuted : ~ C07_translated_statement.
-Proof.
-  intros H.
-  assert (Hno : ~ container_misuse default_config (SearchField meta0 [97]%N t_F7))
-    by (apply default_no_misuse; vm_compute; reflexivity).
-  assert (Hnx : ~ mix default_config (SearchField meta0 [97]%N t_F7)).
-  { intros Hm. apply mixb_mix in Hm. vm_compute in Hm. discriminate. }
-  destruct (H default_config (SearchField meta0 [97]%N t_F7) eq_refl eq_refl Hno Hnx) as [j Hj].
-  vm_compute in Hj. discriminate.
-Qed.
+(* regression for F7 (repaired by commit 8352212):  a:[-1 TO 5]  and  [-1 TO 5] AND b OR c *)
+Definition t_F7 : item :=
+  Range meta0 (Unary KProhibit meta0 (w [49]%N)) (w [53]%N) true true.
 
-Example F7_outcome :
-  build default_config (SearchField meta0 [97]%N t_F7) = RExc (XOther KAttributeError).
+Example F7_regression_translated :
+  build default_config (SearchField meta0 [97]%N t_F7) =
+  ROk (JObj [(k_range, JObj [([97]%N, JObj [(k_lte, JStr [53]%N); (k_gte, JStr [45;49]%N)])])]).
+Proof. vm_compute. reflexivity. Qed.
+
+Example F7_regression_mix :
+  build default_config (Op KAnd meta0 [t_F7; Op KOr meta0 [w [98]%N; w [99]%N]]) = RExc XMix.
+Proof. vm_compute. reflexivity. Qed.
+
+(* a bound under `-` that has no value is still an AttributeError (not a supported tree) *)
+Example range_bound_without_value :
+  build default_config
+        (Range meta0 (Unary KProhibit meta0 (Grp KGroup meta0 (w [49]%N))) (w [53]%N) true true)
+  = RExc (XOther KAttributeError).
 Proof. vm_compute. reflexivity. Qed.
 
 (* ---- non-vacuity: a configuration and trees satisfying every guard, with the three outcomes *)
@@ -213,8 +203,7 @@ Definition t_object : item := fld [120;46;122]%N (w [49]%N).
 
 Example C07_guards_nonvacuous :
   wf_config cfg_ex = true /\ containers_have_leaf cfg_ex = true /\
-  supported t_ok = true /\ range_bounds_plain t_ok = true /\
-  supported t_mix = true /\ range_bounds_plain t_mix = true /\
+  supported t_ok = true /\ supported t_mix = true /\
   supported t_nested = true /\ supported t_object = true.
 Proof. vm_compute. repeat split. Qed.
 
@@ -240,7 +229,6 @@ Qed.
 Print Assumptions C07_container_partial.
 Print Assumptions C07_container_sound.
 Print Assumptions C07_mix_partial.
-Print Assumptions C07_translated_partial.
+Print Assumptions C07_translated.
 Print Assumptions C07_container_refuted.
 Print Assumptions C07_mix_refuted.
-Print Assumptions C07_translated_refuted.
